@@ -32,7 +32,7 @@ const c09redisAddr = "127.0.0.1:6400"
 
 func c09redisBody() {
 	backend := []string{"responsive", "silent", "closes"}[sched.Choose(sched.ClsInput, 3, "backend")]
-	state := []string{"idle-session", "request-in-flight", "no-session", "cold-start", "connect-in-flight"}[sched.Choose(sched.ClsInput, 5, "state")]
+	state := []string{"idle-session", "request-in-flight", "no-session", "cold-start", "connect-in-flight", "after-periodic-refresh"}[sched.Choose(sched.ClsInput, 6, "state")]
 	c09redis(backend, state)
 }
 
@@ -66,7 +66,14 @@ func c09redis(backend, state string) {
 		sched.WaitQuiescent()
 	}
 	k := cl.KeyInGroup("k", 0, 0)
-	if state == "idle-session" || state == "request-in-flight" || state == "host-removed-during-collect" {
+	if state == "after-periodic-refresh" {
+		// the service has been running quietly for longer than the refresh period: the timer-driven refresh ran
+		sched.AdvanceTime(int64(slotsRefFreq) + 1)
+		sched.WaitQuiescent()
+		sched.AdvanceTime(int64(slotsRefMinRate) + 1)
+		sched.WaitQuiescent()
+	}
+	if state == "idle-session" || state == "request-in-flight" || state == "host-removed-during-collect" || state == "after-periodic-refresh" {
 		var err error
 		c, err = vnet.DialConn(c09redisAddr)
 		if err != nil {
